@@ -96,7 +96,21 @@ func (o *sessionTracker) RemoteLogin(rul common.RemoteUserLogin) error {
 			u.setRemoteUserLoginInfo(rul)
 
 			found = true
+
+			// If the session's AUDIT_CRED_DISP is among the cached
+			// events, the session already ended before its login
+			// showed up. Release it once the cache is flushed, just
+			// like auditEventWithSession does, so that a later login
+			// from a process reusing this PID is not bound to it.
+			ended := u.hasCachedEventOfType(auparse.AUDIT_CRED_DISP)
+
 			writeErr = u.writeAndClearCache(o.eventWriter)
+
+			if ended {
+				// The lock is already held by Iterate.
+				o.sessIDsToUsers.DeleteUnsafe(asi)
+			}
+
 			// stop iteration
 			return false
 		}
@@ -350,6 +364,17 @@ func (o *user) setRemoteUserLoginInfo(login common.RemoteUserLogin) {
 // hasRemoteUserLoginInfo checks if there is a remote user login present for the user.
 func (o *user) hasRemoteUserLoginInfo() bool {
 	return o.hasRUL
+}
+
+// hasCachedEventOfType returns true if an event of the given type is cached.
+func (o *user) hasCachedEventOfType(t auparse.AuditMessageType) bool {
+	for i := range o.cached {
+		if o.cached[i].Type == t {
+			return true
+		}
+	}
+
+	return false
 }
 
 // toAuditEvent takes an array of coalesced events and returns and audit event
